@@ -31,6 +31,7 @@ type LoopSpec struct {
 	Visited    string // name of ghost visited set for range-over-map
 	Invariants []*Clause
 	Decreases  *Clause
+	Mentions   []*Clause // ground terms introduced at the start of each iteration (E-matching hints, no logical content)
 }
 
 type FnParamSpec struct {
@@ -92,8 +93,8 @@ type Program struct {
 }
 
 var funcKeywords = map[string]bool{"property": true, "requires": true, "ensures": true, "modifies": true, "loop": true,
-	"invariant": true, "decreases": true, "fnparam": true, "index": true, "visited": true, "opt": true, "lit": true, "note": true, "end": true, "assume-unreachable": true}
-var topKeywords = map[string]bool{"func": true, "assumed": true, "sumfold": true, "define": true, "declare": true, "axiom": true, "ghost": true, "function": true}
+	"invariant": true, "decreases": true, "fnparam": true, "index": true, "visited": true, "opt": true, "lit": true, "note": true, "end": true, "assume-unreachable": true, "mention": true}
+var topKeywords = map[string]bool{"func": true, "assumed": true, "sumfold": true, "define": true, "declare": true, "axiom": true, "ghost": true, "function": true, "nnfold": true}
 
 func LoadProgram(repo string, patterns []string) (*Program, error) {
 	fset := token.NewFileSet()
@@ -302,7 +303,7 @@ func (p *Program) parseLines(pk *packages.Package, file string, raw []rawLine) {
 			fc.File = file
 			cur, root, curLoop, curFn = fc, fc, nil, nil
 			p.Order = append(p.Order, fc)
-		case "sumfold", "define", "declare", "axiom", "ghost", "function":
+		case "sumfold", "define", "declare", "axiom", "ghost", "function", "nnfold":
 			cur = nil
 			p.parseSpecDecl(pk, w, rest, l.pos)
 		default:
@@ -369,6 +370,14 @@ func (p *Program) parseLines(pk *packages.Package, file string, raw []rawLine) {
 				}
 				if c := mkClause("invariant", rest, l.pos); c != nil {
 					curLoop.Invariants = append(curLoop.Invariants, c)
+				}
+			case "mention":
+				if curLoop == nil {
+					p.errf(l.pos, "mention outside loop")
+					continue
+				}
+				if c := mkClause("mention", rest, l.pos); c != nil {
+					curLoop.Mentions = append(curLoop.Mentions, c)
 				}
 			case "decreases":
 				if curLoop == nil {
